@@ -255,6 +255,12 @@ fn for_items(seed: u64, reps: u32, quick: bool) -> (Vec<Case>, Vec<Case>) {
             push(&mut heavy, cv, ForKind::Msm(2), &[0, [1u8, 4, 3, 0][(rep % 4) as usize]], &[0, 4], 2);
             push(&mut heavy, cv, ForKind::MsmLeBits(1, 260), &[0], &[[6u8, 7, 5, 0, 4][(rep % 5) as usize]], 2);
             push(&mut heavy, cv, ForKind::MsmBounded(2, 64), &[0, 1], &[7, 0], 2);
+            // one assigned base in every term (the chip merges such terms): maximal scalars of
+            // equal, decreasing and increasing bounds, so that the merged scalar carries
+            push(&mut heavy, cv, ForKind::MsmRep(vec![7, 7, 7]), &[0], &[7, 7, 7], 2);
+            push(&mut heavy, cv, ForKind::MsmRep(vec![8, 4]), &[0], &[7, 7], 2);
+            push(&mut heavy, cv, ForKind::MsmRep(vec![[4usize, 12, 63, 64][(rep % 4) as usize], 8, 8, 3]), &[0], &[7, [7u8, 0, 2, 7][(rep % 4) as usize], 7, 7], 2);
+            push(&mut heavy, cv, ForKind::MsmRep(vec![64, 64]), &[[0u8, 1][(rep % 2) as usize]], &[7, [7u8, 0][(rep % 2) as usize]], 2);
             // (identity base with a constant above 128 bits: defect D4 below)
             push(&mut heavy, cv, ForKind::MulConst(hexs(&(&w.n - 1u32))), &[if rep % 2 == 0 { 0 } else { 2 }], &[], 2);
             // `mul_by_u128` path: constants up to 128 bits (D1 fixed in bac5b50: digits recomposed)
